@@ -366,6 +366,8 @@ class CallMixin:
                 raise Unsupported("getattr with symbolic name")
             default = args[2] if len(args) > 2 else UNDEF
             return self.getattr_value(obj, attr, node, default=default)
+        if name == "contextlib.suppress":
+            return ("suppress",) + tuple(args)
         if name == "functools.partial":
             return PartialV(args[0], args[1:], kwargs)
         if name == "setattr":
@@ -413,6 +415,13 @@ class CallMixin:
                 return dict(v)
             if isinstance(v, EnumMap):
                 return EnumMap(v.cls, dict(v.slots), v.defaultdict)
+            if isinstance(v, (list, tuple, GenExp)):
+                out = {}
+                for pair in self.iterate(v):
+                    k, x = pair
+                    out[k] = x
+                out.update(kwargs)
+                return out
             raise Unsupported("dict(...)")
         if name == "dict.fromkeys":
             src = self.force(args[0])
@@ -448,6 +457,24 @@ class CallMixin:
         if name == "type":
             v = self.force(args[0])
             return ("typeof", v)
+        if name in ("any", "all"):
+            # short-circuit over the elements in order (a generator's element expressions are evaluated lazily, as in CPython)
+            want = name == "any"
+            for v in self.lazy_iterate(args[0]):
+                if self.is_true(v) == want:
+                    return want
+            return not want
+        if name == "next":
+            for v in self.lazy_iterate(args[0]):
+                return v
+            if len(args) > 1:
+                return args[1]
+            self.raise_builtin("StopIteration", node)
+        if name == "enumerate":
+            start = args[1] if len(args) > 1 else kwargs.get("start", 0)
+            return [(start + i, v) for i, v in enumerate(self.iterate(args[0]))]
+        if name == "zip":
+            return list(zip(*[self.iterate(a) for a in args]))
         if name == "sum":
             items = self.iterate(args[0])
             acc = 0
